@@ -102,6 +102,15 @@ Example c14_nonvacuous :
   decode_tunnelled_query (client_request b 3 verb path q body []) = DOk (server_view (untunnelled_wire verb path q body [])).
 Proof. vm_compute. repeat split; reflexivity. Qed.
 
+(* The rule "override header + URL query" is on the RAW query: queries that net/url parses to no parameter at all
+   ("&", "a;b", "%zz") are rejected like any other; only the empty raw query goes on. *)
+Example override_with_unparseable_raw_query_rejected :
+  let r q := {| w_method := http_post; w_path := [x2f;x63]; w_rawquery := q;
+                w_ct := Some form_urlencoded_content_type; w_override := Some [x47;x45;x54]; w_other := []; w_body := [x61;x3d;x31] |} in
+  serve (r [x26]) = Rejected400 /\ serve (r [x61;x3b;x62]) = Rejected400 /\ serve (r [x25;x7a;x7a]) = Rejected400 /\
+  exists d, serve (r []) = Routed d.
+Proof. vm_compute. repeat split; eexists; reflexivity. Qed.
+
 Print Assumptions tunnel_roundtrip.
 Print Assumptions tunnel_roundtrip_refuted.
 Print Assumptions below_threshold_untouched.
